@@ -368,3 +368,38 @@ func Verif_C17_listener_closed_with_unaccepted_connections() {
 	n.s.cancelFunc()
 	verifapi.Quiesce()
 }
+
+// Verif_C17_notice_burst_leaves_nothing_behind: a connection's unreachable monitor (the real
+// monitorUnreachable on a real socket) gets a BURST: two matching 'service unknown' notices (every
+// retransmitted packet is answered). The connection is abandoned after the first one; then the
+// subscription is given up, the socket closed and the node shut down. No goroutine of the socket's
+// notification plumbing is left parked on the second notice.
+func Verif_C17_notice_burst_leaves_nothing_behind() {
+	n := verifNetceptor("A")
+	s := n.s
+	verifapi.Quiesce()
+	before := verifapi.LiveGoroutines()
+	pc, err := s.ListenPacket("s1")
+	verifapi.Assert("listen-ok", err == nil)
+	done := make(chan struct{})
+	cancelled := 0
+	go monitorUnreachable(pc, done, Addr{node: "R", service: "dead"}, func() { cancelled++ })
+	verifapi.Quiesce()
+	for i := 0; i < 2; i++ {
+		um := &UnreachableMessage{FromNode: "A", FromService: "s1", ToNode: "R", ToService: "dead", Problem: ProblemServiceUnknown}
+		md := &MessageData{FromNode: "R", ToNode: "A", FromService: "unreach", ToService: "unreach", HopsToLive: 5, Data: verifapi.JSON(um)}
+		go func() { _ = s.handleMessageData(md) }()
+		verifapi.Quiesce()
+	}
+	verifapi.Assert("connection-abandoned-on-the-notice", cancelled >= 1)
+	close(done)
+	verifapi.Quiesce()
+	_ = pc.Close()
+	verifapi.Quiesce()
+	verifapi.Cover("socket-closed-after-a-burst")
+	_, bound := s.listenerRegistry["s1"]
+	verifapi.Assert("service-name-released", !bound)
+	verifapi.Assert("no-goroutine-left-behind", verifapi.LiveGoroutines() == before)
+	s.cancelFunc()
+	verifapi.Quiesce()
+}
